@@ -446,7 +446,7 @@ func (rd *remoteDelivery) Close() error {
 		rd.rt.limits.ReleaseDest(conn.domain)
 		conn.transactions++
 
-		if !conn.Usable() {
+		if !conn.Usable() || conn.policiesSkipped {
 			rd.Log.Debugf("disconnected %v from %s (errored=%v,transactions=%v,disconnected before=%v)",
 				conn.LocalAddr(), conn.ServerName(), conn.errored, conn.transactions, conn.C.Client() == nil)
 			conn.Close()
